@@ -18,6 +18,7 @@ CHECKS = {
  "C11": (E2, "Every record sequence of length <=2 (thorough 3) over a per-framing alphabet of legal records is sent through the real Send (pipelined) and read back under every cut set of <=k cuts (k by stream length), one-byte reads, and EOF delivered with or after the last chunk; size sequences over {0,1,4095,4096,4097,64Ki,1Mi,1Mi+1,3Mi}; split-byte guard on every record <=4 over {a,split}; channel.Direct under the scheduler (all interleavings in the thorough tier).", "encoding/json and bufio trusted; alphabets and cut bounds as reported", "DESIGN.md §5 C11"),
  "C12": (E2, "Every byte string <=7 (thorough 9) over {a,b,split,CR} for Split/Line, every token string <=4 (thorough 5) over a 21-token header alphabet (including absurd and overflowing lengths) with three suffixes for the four header framings, every string <=5 (6) over the JSON punctuation alphabet for RawJSON, plus every truncation / single-byte substitution of valid header streams; each under <=1 cut, one-byte reads and both EOF placements; compared with three-valued reference decoders (must-yield / must-fail / unspecified) written from the package documentation. Runs in sub-processes under a fixed address-space limit; a dead worker is a violation carrying the announced input.", "reference decoders encode only what the documentation states (unspecified inputs are judged for no-panic / no-fabrication only)", "DESIGN.md §5 C12"),
  "C02": (E2, "Every record of the product of per-field variants (6 versions x 13 ids x 10 methods x 9 params x 6 extra fields = 42120 members, as object and as one-element array), all ordered pairs of 30 class representatives as batches, and every byte string <=4 (thorough 5) over an 11-character JSON alphabet, each for a plain and a push-enabled server, is fed to a real Server under the cooperative scheduler (so 'no output' is decided at a sound quiescent point), followed by a liveness probe; members with >=2 defects are run under every iteration order of the member parser's map. Output is compared with an independently written classifier.", "default schedule only (the property quantifies over inputs); classifier treats reply-shaped members with further defects as unspecified on push-enabled servers", "DESIGN.md §5 C02"),
+ "C13": (E2, "Every method name of <=2 runes over 14 special runes (thorough: every single rune U+0000..U+10FFFF), 84 values of depth <=2 as Go values and as pre-encoded raw JSON with white space at every token boundary, ids of every JSON type, error objects with data: emitted through Client.Notify/Call/Batch, Server responses / error responses / Notify, and Response.MarshalJSON, captured on a raw channel and judged by an independent strict JSON tokenizer, a round trip through ParseRequests and every framing's Send. ParseRequests itself on every C02 input against the C02 classifier.", "encoding/json trusted for value comparison only (the validator is separate); default schedule", "DESIGN.md §5 C13"),
 }
 ALL = [json.loads(l)["id"] for l in open(os.path.join(HERE, "properties.jsonl"))]
 PENDING = "check not built yet (work in progress in the order of DESIGN.md §10); nothing is claimed for it"
